@@ -449,6 +449,88 @@ func scaledInputs(thorough bool) map[string][][]byte {
 	return out
 }
 
+// kindCollisions: node hashes carry no kind tag (a shared-prefix node hashes key||valueHash, a value node
+// weight||value, a branch weight||child hashes), so an entry of one kind can be replaced by an entry of ANOTHER
+// kind with the SAME true hash. For every entry of an export/proof: the equal-hash substitute where one can
+// be constructed, and substitutes of every other kind that merely repeat the recorded hash field; with and
+// without the entries that followed.
+func kindCollisions(b []byte, emit func([]byte)) {
+	var pt wmpt.PersistTrie
+	if cbor.Unmarshal(b, &pt) != nil || len(pt.Pairs) == 0 {
+		return
+	}
+	be := func(v uint64) []byte { return binary.BigEndian.AppendUint64(nil, v) }
+	for i, pr := range pt.Pairs {
+		if pr == nil {
+			continue
+		}
+		var nb wmpt.PersistNodeBase
+		if cbor.Unmarshal(pr.Value, &nb) != nil {
+			continue
+		}
+		var subs []*wmpt.PersistNodeBase
+		switch {
+		case nb.Short != nil:
+			s := nb.Short
+			if len(s.Key) >= 8 && len(s.Value) >= 32 {
+				subs = append(subs, &wmpt.PersistNodeBase{Value: &wmpt.PersistNodeValue{Value: append(append([]byte{}, s.Key[8:]...), s.Value[:32]...), Hash: s.Hash, Weight: binary.BigEndian.Uint64(s.Key[:8])}})
+			}
+			subs = append(subs,
+				&wmpt.PersistNodeBase{Value: &wmpt.PersistNodeValue{Value: []byte("x"), Hash: s.Hash, Weight: 1}},
+				&wmpt.PersistNodeBase{Branch: &wmpt.PersistNodeBranch{Hash: s.Hash}},
+				&wmpt.PersistNodeBase{HashNode: &wmpt.PersistHashNode{Hash: s.Hash, Weight: 1}})
+		case nb.Value != nil:
+			v := nb.Value
+			if len(v.Value) >= 32 {
+				key := append(be(v.Weight), v.Value[:len(v.Value)-32]...)
+				for _, w := range []uint64{0, v.Weight} {
+					subs = append(subs, &wmpt.PersistNodeBase{Short: &wmpt.PersistNodeShort{Key: key, Hash: v.Hash, Value: append(append([]byte{}, v.Value[len(v.Value)-32:]...), be(w)...)}})
+				}
+			}
+			subs = append(subs,
+				&wmpt.PersistNodeBase{Short: &wmpt.PersistNodeShort{Key: []byte{1}, Hash: v.Hash, Value: make([]byte, 40)}},
+				&wmpt.PersistNodeBase{Branch: &wmpt.PersistNodeBranch{Hash: v.Hash}},
+				&wmpt.PersistNodeBase{HashNode: &wmpt.PersistHashNode{Hash: v.Hash, Weight: v.Weight}})
+		case nb.Branch != nil:
+			br := nb.Branch
+			var cat []byte
+			var total uint64
+			ok := len(br.Children) == 16
+			for _, c := range br.Children {
+				if len(c) != 40 {
+					ok = false
+					break
+				}
+				cat = append(cat, c[:32]...)
+				total += binary.BigEndian.Uint64(c[32:])
+			}
+			if ok {
+				subs = append(subs, &wmpt.PersistNodeBase{Value: &wmpt.PersistNodeValue{Value: cat, Hash: br.Hash, Weight: total}})
+			}
+			subs = append(subs,
+				&wmpt.PersistNodeBase{Value: &wmpt.PersistNodeValue{Value: []byte("x"), Hash: br.Hash, Weight: 1}},
+				&wmpt.PersistNodeBase{Short: &wmpt.PersistNodeShort{Key: []byte{1}, Hash: br.Hash, Value: make([]byte, 40)}},
+				&wmpt.PersistNodeBase{HashNode: &wmpt.PersistHashNode{Hash: br.Hash, Weight: total}})
+		}
+		for _, sb := range subs {
+			enc, err := cbor.Marshal(sb)
+			if err != nil {
+				continue
+			}
+			for _, keepTail := range []bool{false, true} {
+				pairs := append([]*wmpt.PersistTriePair{}, pt.Pairs[:i]...)
+				pairs = append(pairs, &wmpt.PersistTriePair{Value: enc})
+				if keepTail {
+					pairs = append(pairs, pt.Pairs[i+1:]...)
+				}
+				if out, err := cbor.Marshal(&wmpt.PersistTrie{Pairs: pairs}); err == nil {
+					emit(out)
+				}
+			}
+		}
+	}
+}
+
 func panicSite() string {
 	var out []string
 	lines := strings.Split(string(debug.Stack()), "\n")
@@ -720,6 +802,12 @@ func C15(tier rt.Tier) int {
 				typeConfusions(c, 1, func(m []byte) { emit(m); count++ })
 			}
 		}
+		// (d') kind confusion with equal hashes
+		if t.name == "WeightedMerkleTrie.Deserialize" || t.name == "WeightedMerkleTrie.VerifyBlockProof" {
+			for _, c := range corp[t.name] {
+				kindCollisions(c, func(m []byte) { emit(m); count++ })
+			}
+		}
 		// (c) structure-aware enumeration of field lengths for the CBOR formats
 		switch t.name {
 		case "wmpt.DeserializeNode":
@@ -756,7 +844,7 @@ func C15(tier rt.Tier) int {
 	rep.Set("accepted_inputs", int(st.accepted))
 	rep.Set("inputs_per_decoder", st.perTgt)
 	rep.Set("corpus_encodings", csize)
-	rep.Set("rule", fmt.Sprintf("for each of the four decoders: ALL byte strings of length <= %d, plus for every real encoding of the corpus (state-trie nodes of every kind, weighted-trie nodes incl. branches with embedded short children, path exports, block proofs; each decoder also sees the other formats): every truncation, every single-byte deletion, every byte value at each of the first 24 (thorough 64) positions and {00,3a,7f,80,ff} (+ every bit flip in thorough) elsewhere, separator duplication, every CBOR head rewritten to every length form incl. 4/8-byte lengths near 2^31/2^63 and indefinite, every splice head(A)+tail(B) at separator/head boundaries; plus a structure-aware enumeration for the CBOR formats: well-formed nodes whose fields take every boundary length (child entries of 0..100 bytes, 0..32 children, short-node key/value/hash lengths, several kinds at once), alone and as first/second element of exports and proofs; and CBOR type confusion: every data item of every corpus encoding, also inside embedded proof/export elements, replaced by null, 0, true, a huge integer, empty byte/text string, empty array, empty map, [null]; plus large well-formed inputs: path exports that are chains of 64/1000/20000 (thorough 100000) one-nibble shared-prefix nodes with true hashes and with a wrong bottom hash, flat exports of 1000/200000 entries, nodes with 2^16/2^20-byte fields, state-trie type bytes followed by 2^16/2^20 separator/filler bytes; oracle: returns value or error without panic within 120 s, anything accepted is re-encoded/hashed/copied without panic; 'states' = corpus encodings; inputs are counted, not deduplicated", maxLen))
+	rep.Set("rule", fmt.Sprintf("for each of the four decoders: ALL byte strings of length <= %d, plus for every real encoding of the corpus (state-trie nodes of every kind, weighted-trie nodes incl. branches with embedded short children, path exports, block proofs; each decoder also sees the other formats): every truncation, every single-byte deletion, every byte value at each of the first 24 (thorough 64) positions and {00,3a,7f,80,ff} (+ every bit flip in thorough) elsewhere, separator duplication, every CBOR head rewritten to every length form incl. 4/8-byte lengths near 2^31/2^63 and indefinite, every splice head(A)+tail(B) at separator/head boundaries; plus a structure-aware enumeration for the CBOR formats: well-formed nodes whose fields take every boundary length (child entries of 0..100 bytes, 0..32 children, short-node key/value/hash lengths, several kinds at once), alone and as first/second element of exports and proofs; and CBOR type confusion: every data item of every corpus encoding, also inside embedded proof/export elements, replaced by null, 0, true, a huge integer, empty byte/text string, empty array, empty map, [null]; every entry of every export/proof replaced by an entry of another node kind with the same true hash where constructible (node hashes carry no kind tag) and by entries of every other kind repeating the recorded hash, with and without the entries behind it; plus large well-formed inputs: path exports that are chains of 64/1000/20000 (thorough 100000) one-nibble shared-prefix nodes with true hashes and with a wrong bottom hash, flat exports of 1000/200000 entries, nodes with 2^16/2^20-byte fields, state-trie type bytes followed by 2^16/2^20 separator/filler bytes; oracle: returns value or error without panic within 120 s, anything accepted is re-encoded/hashed/copied without panic; 'states' = corpus encodings; inputs are counted, not deduplicated", maxLen))
 	rep.Sample(map[string]any{"decoder": "util.CreateNode", "input_hex": "02"})
 	if c := corp["wmpt.DeserializeNode"]; len(c) > 0 {
 		rep.Sample(map[string]any{"decoder": "wmpt.DeserializeNode", "corpus_encoding_hex": hex.EncodeToString(c[0])})
